@@ -107,30 +107,31 @@ def check_delays_applied(ctx: Ctx, rule: str) -> None:
     """Every value TdlChannel.corrupt_data returns carries the tap DELAYS, not only the tap values (read-set per return)."""
     from ..astutil import return_dependences
     M = ctx.model
-    ctx.rule(rule, 'TdlChannel.corrupt_data: every returned value that is built from the sparse tap values is also built from their sparse '
-                   'indexes (the delays) and from the signal - no return path drops the delays', floor=1)
-    cd = M.func(FA, 'TdlChannel.corrupt_data')
-    rets = return_dependences(cd)
-    if not rets:
-        ctx.error('%s: TdlChannel.corrupt_data has no return statement (cannot tell)' % rule)
-    sig = [p for p in cd.params if p != cd.self_name][0]
-    for r, deps in rets:
-        construct = 'TdlChannel.corrupt_data:return@%s' % norm(r.value)[:40]
-        ctx.instance(rule, construct)
-        last = {d.rsplit('.', 1)[-1] for d in deps}
-        sparse_vals = 'tap_values_sparse' in last
-        dense_vals = 'tap_values' in last
-        delays = bool(last & {'tap_indexes_sparse', 'tap_delays', 'tap_indexes'})
-        if not sparse_vals and not dense_vals:
-            ctx.error('%s: the value returned at line %d depends on neither the sparse nor the dense tap values of the impulse response '
-                      '(unknown way of applying the channel: cannot tell)' % (rule, r.lineno))
-        ok = (dense_vals or delays) and sig in deps
-        ctx.obligation(rule, construct, ok, {'sources': sorted(d for d in deps if 'tap' in d or d == sig)})
-        if not ok:
-            what = 'the transmitted signal' if sig not in deps else 'the tap delays (tap_indexes_sparse)'
-            ctx.violation(rule, 'TdlChannel.corrupt_data', 'the value returned at line %d is computed from %s without %s: on that path a delayed '
-                          'tap is applied as if its delay were 0, so the output disagrees with the reported impulse response'
-                          % (r.lineno, 'tap_values_sparse' if sparse_vals else 'tap_values', what), cd.path, r.lineno, operand='return-without-delays')
+    ctx.rule(rule, 'TdlChannel.corrupt_data / TdlImpulseResponse.get_freq_response: every returned value that is built from the sparse tap values is also '
+                   'built from their sparse indexes (the delays) - and from the signal - no return path drops the delays', floor=2)
+    for q, needs_signal in (('TdlChannel.corrupt_data', True), ('TdlImpulseResponse.get_freq_response', False)):
+        cd = M.func(FA, q)
+        rets = return_dependences(cd)
+        if not rets:
+            ctx.error('%s: %s has no return statement (cannot tell)' % (rule, q))
+        sig = [p for p in cd.params if p != cd.self_name][0] if needs_signal else None
+        for r, deps in rets:
+            construct = '%s:return@%s' % (q, norm(r.value)[:40])
+            ctx.instance(rule, construct)
+            last = {part.lstrip('_') for d in deps for part in d.split('.')}
+            sparse_vals = 'tap_values_sparse' in last
+            dense_vals = bool(last & {'tap_values', 'get_samples_including_the_extra_zeros', 'tap_values_dense'})
+            delays = bool(last & {'tap_indexes_sparse', 'tap_delays', 'tap_indexes'})
+            if not sparse_vals and not dense_vals:
+                ctx.error('%s: the value returned at line %d of %s depends on neither the sparse nor the dense tap values of the impulse response '
+                          '(unknown way of applying the channel: cannot tell)' % (rule, r.lineno, q))
+            ok = (dense_vals or delays) and (sig is None or sig in deps)
+            ctx.obligation(rule, construct, ok, {'sources': sorted(d for d in deps if 'tap' in d or 'samples' in d or d == sig)})
+            if not ok:
+                what = 'the transmitted signal' if (sig is not None and sig not in deps) else 'the tap delays (tap_indexes_sparse)'
+                ctx.violation(rule, q, 'the value returned at line %d is computed from %s without %s: on that path a delayed '
+                              'tap is applied as if its delay were 0, so the output disagrees with the reported impulse response'
+                              % (r.lineno, 'tap_values_sparse' if sparse_vals else 'tap_values', what), cd.path, r.lineno, operand='return-without-delays')
 
 
 def check_linearity(ctx: Ctx, rule: str) -> None:
